@@ -80,26 +80,108 @@ type tconn struct {
 func (c *tconn) Close() error { c.closed.Store(true); return c.Conn.Close() }
 
 type plistener struct {
+	r      *Rig
 	id     int
 	conns  chan net.Conn
 	done   chan struct{}
 	once   sync.Once
 	closed atomic.Bool
+
+	mu   sync.Mutex
+	mode int    // RaceAtClose / RaceAfterClose when armed
+	race *tconn // the connection handed out at the armed instant
 }
+
+// Race instants for Rig.ArmRace: a peer's connection is handed to a pending Accept ...
+const (
+	RaceBeforeClose = 1 // ... right away; the caller calls Close next
+	RaceAtClose     = 2 // ... from INSIDE the listener's Close, before the listener reads as closed
+	RaceAfterClose  = 3 // ... after the listener's Close has returned (Accept still returns it)
+)
 
 func (l *plistener) Accept() (net.Conn, error) {
 	select {
 	case c := <-l.conns:
 		return c, nil
 	case <-l.done:
+		l.mu.Lock()
+		var c *tconn
+		if l.mode == RaceAfterClose {
+			c, l.race = l.race, nil
+		}
+		l.mu.Unlock()
+		if c != nil {
+			l.r.register(c)
+			return c, nil
+		}
 		return nil, net.ErrClosed
 	}
 }
 func (l *plistener) Close() error {
 	l.closed.Store(true)
-	l.once.Do(func() { close(l.done) })
+	l.once.Do(func() {
+		l.mu.Lock()
+		var c *tconn
+		if l.mode == RaceAtClose {
+			c, l.race = l.race, nil
+		}
+		l.mu.Unlock()
+		if c != nil {
+			// the pending Accept takes the connection BEFORE the listener reads as closed
+			select {
+			case l.conns <- c:
+				l.r.register(c)
+			case <-time.After(time.Second):
+				_ = c.Conn.Close()
+			}
+		}
+		close(l.done)
+	})
 	return nil
 }
+
+// ArmRace prepares a peer connection that the CURRENT listener hands to the library at the given
+// instant relative to the listener's Close. It returns the peer's end of the pipe (nil if there is
+// no listener / the hand-over of RaceBeforeClose did not happen within d).
+func (r *Rig) ArmRace(mode int, d time.Duration) net.Conn {
+	r.mu.Lock()
+	l := r.curLis
+	r.mu.Unlock()
+	if l == nil {
+		return nil
+	}
+	a, b := net.Pipe()
+	tc := &tconn{Conn: a}
+	if mode == RaceBeforeClose {
+		select {
+		case l.conns <- tc:
+			r.register(tc)
+			return b
+		case <-time.After(d):
+			_ = a.Close()
+			_ = b.Close()
+			return nil
+		}
+	}
+	l.mu.Lock()
+	l.mode, l.race = mode, tc
+	l.mu.Unlock()
+	return b
+}
+
+// RaceLeft reports whether an armed race connection was never taken by an Accept.
+func (r *Rig) RaceLeft() bool {
+	r.mu.Lock()
+	l := r.curLis
+	r.mu.Unlock()
+	if l == nil {
+		return false
+	}
+	l.mu.Lock()
+	defer l.mu.Unlock()
+	return l.race != nil
+}
+
 func (l *plistener) Addr() net.Addr { return paddr{} }
 
 type paddr struct{}
@@ -362,7 +444,7 @@ func (r *Rig) listen(ctx context.Context, _, _ string) (net.Listener, error) {
 		r.add(Ev{K: "D", ID: int64(n), Res: "listenerr"})
 		return nil, errors.New("rig: address in use")
 	}
-	l := &plistener{id: n, conns: make(chan net.Conn), done: make(chan struct{})}
+	l := &plistener{r: r, id: n, conns: make(chan net.Conn), done: make(chan struct{})}
 	r.mu.Lock()
 	r.lsns = append(r.lsns, l)
 	r.curLis = l
